@@ -140,6 +140,26 @@ func main() {
 		}
 	}
 	sb.WriteString("]\n\n")
+	// every well-formed descriptor (named or not) in one list, for the generated instance of the round-trip theorem
+	sb.WriteString("/-- every regenerated descriptor that satisfies the well-formedness condition -/\ndef allWf : List Ty := [")
+	first1 := true
+	for _, n := range all {
+		if _, bad := tlbx.NonWf[n]; bad {
+			continue
+		}
+		if !first1 {
+			sb.WriteString(", ")
+		}
+		first1 = false
+		fmt.Fprintf(&sb, "desc_%s", tlbx.LeanIdent(n))
+	}
+	sb.WriteString("]\n\ntheorem allWf_ok : allWf.all (wfTop env) = true := by\n  simp only [allWf, List.all_cons, List.all_nil, Bool.and_true")
+	for _, n := range all {
+		if _, bad := tlbx.NonWf[n]; !bad {
+			fmt.Fprintf(&sb, ",\n    wf_%s", tlbx.LeanIdent(n))
+		}
+	}
+	sb.WriteString("]\n\n")
 	sb.WriteString("/-- registered Go types with a descriptor (class model or partial) -/\ndef covered : List String := [")
 	for i, n := range all {
 		if i > 0 {
